@@ -71,6 +71,7 @@ fn main() {
         }
         try_family!(scen::lpg_scenarios(three));
         try_family!(scen::lpg_matrix_scenarios());
+        try_family!(scen::lpg_matrix_scenarios_three());
         try_family!(scen::rdf_scenarios(three));
         try_family!(scen::rdf_matrix_scenarios());
         try_family!(scen::txm_scenarios(three));
@@ -151,6 +152,9 @@ fn main() {
                 run_all(scen::bm_scenarios(true).into_iter().filter(|s| s.threads.len() == 3).collect(), b3, cap, &mut rep, only);
                 run_all(scen::cat_scenarios(true).into_iter().filter(|s| s.threads.len() == 3).collect(), b3, cap, &mut rep, only);
                 run_all(scen::hn_scenarios(true), 1, cap, &mut rep, only);
+                if tier == Tier::Thorough {
+                    run_all(scen::lpg_matrix_scenarios_three(), 2, cap, &mut rep, only);
+                }
             }
         }
         "C03" => {
